@@ -348,6 +348,21 @@ def oracle_C14(inp):
         cf["project"] = "mutated"
     except SpilException:
         pass
+    # a dictionary handed to Sid(fields=...) stays the caller's: changing it later changes no Sid
+    if a and a.type:
+        for order in ("template", "reversed"):
+            items = list(a.fields.items())
+            given = dict(items if order == "template" else reversed(items))
+            made = Sid(fields=given)
+            obs = (str(made), made.type, list(made.fields.items()), made.uri, hash(made), made.as_query(), str(made.parent))
+            ks = list(given.keys())
+            given[ks[-1]] = "mutated"
+            given["injected"] = "x"
+            del given[ks[0]]
+            obs2 = (str(made), made.type, list(made.fields.items()), made.uri, hash(made), made.as_query(), str(made.parent))
+            if obs != obs2:
+                out.append("Sid(fields=d) built from %s-ordered fields of %r changed when the caller changed d afterwards: %r -> %r"
+                           % (order, inp["a"], obs, obs2))
     after = (str(a), a.type, list(a.fields.items()), a.uri, hash(a))
     again = Sid(inp["a"])
     after2 = (str(again), again.type, list(again.fields.items()), again.uri, hash(again))
@@ -878,6 +893,38 @@ def oracle_C11(inp):
                     out.append("FindInAll %r vs FindInPaths %r for %r" % (sorted(dd), sorted(a), s))
             except BaseException as e:  # noqa
                 out.append("FindInAll.find(%r) raised %s: %s" % (s, type(e).__name__, e))
+    # levels answered from constants: FindInAll(parent search) x the constant values the last segment admits
+    for s in inp.get("const_searches", []):
+        try:
+            us = unfolded(s)
+            fs = [conf.get_finder_for(u, None) for u in us]
+            if not us or not all(type(f).__name__ == "FindInConstants" for f in fs) or len({id(f) for f in fs}) != 1:
+                continue
+            values = list(fs[0].values)
+            if "/" not in s:
+                continue
+            head, last = s.rsplit("/", 1)
+            alts = last.split(",")
+            admitted = [val for val in values if any(seg_glob(a, val) for a in alts)]
+            types = {u.type for u in us}
+            expected = set()
+            for p in FindInAll().find(head, as_sid=False):
+                for val in admitted:
+                    x = Sid(p + "/" + val)
+                    if x and x.type in types:
+                        expected.add(str(x))
+            got = list(FindInAll().find(s, as_sid=False))
+            if set(got) != expected:
+                out.append("FindInAll.find(%r) = %r, but the parents found by %r combined with the constants %r give %r"
+                           % (s, sorted(got), head, admitted, sorted(expected)))
+            if len(alts) > 1:
+                union = set()
+                for a in alts:
+                    union |= set(FindInAll().find(head + "/" + a, as_sid=False))
+                if set(got) != union:
+                    out.append("FindInAll.find(%r) = %r is not the union %r of its alternatives" % (s, sorted(got), sorted(union)))
+        except BaseException as e:  # noqa
+            out.append("FindInAll.find(%r) raised %s: %s" % (s, type(e).__name__, e))
     for j in inp.get("junk", []):
         p = Path(_real(j["path"]))
         try:
@@ -933,7 +980,16 @@ def oracle_C12(inp):
     gset = set(G)
     for p in inp.get("probes", []):
         x = Sid(p)
-        if not x or not uses_paths_finder(x) or x.path() is None:
+        if not x or not uses_paths_finder(x):
+            continue
+        if x.path() is None:
+            # a level without a path of its own (e.g. the node of a cache file): it never "exists", but the
+            # entities below it do, and children() must list them
+            kids = [g for g in G if g.rsplit("/", 1)[0] == p and "/" in g and Sid(g).path() is not None]
+            if kids and not x.is_leaf() and (x / "*") and all(uses_paths_finder(Sid(k)) for k in kids):
+                got = sorted(str(c) for c in x.children())
+                if got != sorted(kids):
+                    out.append("Sid(%r).children() = %r, ground truth %r (the Sid itself has no path)" % (p, got, sorted(kids)))
             continue
         if x.exists() != (p in gset):
             out.append("Sid(%r).exists() = %r, ground truth %r" % (p, x.exists(), p in gset))
@@ -972,11 +1028,30 @@ def oracle_C15(inp):
     E = set()
     data = {}
     for k, op in enumerate(inp["ops"]):
+        kind = op["do"]
+        if kind == "get_search":
+            # reading through a search: one record per existing matching entity, each with ITS data and 'sid'
+            srch = op["s"]
+            try:
+                recs = [dict(r) for r in list(GetFromPaths().get(srch))]
+            except BaseException as e:  # noqa
+                out.append("step %d get(%r) raised %s: %s" % (k, srch, type(e).__name__, e))
+                break
+            want = []
+            for e in sorted(E):
+                if seg_glob(srch, e):
+                    dd = dict(data.get(_sidecar_key(Sid(e).path()), {}))
+                    dd["sid"] = e
+                    want.append(dd)
+            key = lambda r: _json.dumps(r, sort_keys=True, default=str)
+            if sorted(map(key, recs)) != sorted(map(key, want)):
+                out.append("step %d get(%r): expected the records %r, got %r" % (k, srch, want, recs))
+                break
+            continue
         s = op["sid"]
         x = Sid(s)
         path = x.path() if x else None
         attrs = None if op.get("data") is None else {a: _json.loads(b) for a, b in op["data"]}
-        kind = op["do"]
         try:
             if kind == "create":
                 r = WriteToPaths().create(s, attrs)
@@ -1429,10 +1504,17 @@ def oracle_C17(inp):
     dp = Path(data_path)
     text = dp.read_text()
     cases = [("truncated at %d" % i, text[:i]) for i in range(0, len(text), max(1, len(text) // 25))] + [("emptied", "")]
+    raw = text.encode("utf-8")
+    # not valid JSON because not even valid UTF-8 text (re-saved in another encoding, binary garbage, cut inside a character)
+    cases += [("re-saved as UTF-16", b"\xff\xfe" + text.encode("utf-16-le")), ("binary garbage", b"\x80\x81\xfe\xff\x00{}"),
+              ("latin-1 bytes", '{"comment": "caf\xe9"}'.encode("latin-1")), ("NUL bytes", b"\x00" * 8),
+              ("cut inside a character", '{"comment": "\u00e9"}'.encode("utf-8")[:14])]
     for name, content in cases + [("directory", None)]:
         if content is None:
             dp.unlink()
             dp.mkdir()
+        elif isinstance(content, bytes):
+            dp.write_bytes(content)
         else:
             dp.write_text(content)
         try:
@@ -1440,7 +1522,7 @@ def oracle_C17(inp):
             valid = None
             if content:
                 try:
-                    valid = _json.loads(content)
+                    valid = _json.loads(content if isinstance(content, str) else content.decode("utf-8"))
                 except ValueError:
                     valid = None
             if valid is None and got != {"sid": sid}:
@@ -1450,6 +1532,9 @@ def oracle_C17(inp):
             found = list(FindInPaths().find(sid.rsplit("/", 1)[0] + "/*", as_sid=False))
             if sid not in found:
                 out.append("sidecar %s: search no longer finds %r" % (name, sid))
+            recs = [dict(r) for r in GetFromPaths().get(sid.rsplit("/", 1)[0] + "/*")]
+            if valid is None and {"sid": sid} not in recs:
+                out.append("sidecar %s: reading through a search gives %r, expected a record holding only the sid entry of %r" % (name, recs, sid))
         except BaseException as e:  # noqa
             out.append("sidecar %s: %s: %s" % (name, type(e).__name__, e))
         if content is None:
